@@ -140,6 +140,14 @@ def gen_cases(ctx):
             pr = (p, 0, 0, 2.0 if ind == "BB" else 0.0)
             cases.append(Case("L_%s_p%d" % (ind, p), [new_op(0, ind, pr)] + long_feed("SMA", 4400, "plain" if p == 3 else "spike"),
                               dump=(), meta={"ind": ind, "p": p, "fam": "D", "n": 4400, "style": "long"}))
+    # integer saw-teeth whose length equals or divides the period (seed-independent): every input equals the value it evicts while the
+    # window is not flat — shortcuts taken "when nothing changed" (input == old value, running sum unchanged) misfire exactly there
+    for ind in ("SMA", "WMA", "SD", "MAD", "BB", "MIN", "MAX"):
+        for p, tooth in ((5, 5), (6, 3), (3, 3), (4, 2)):
+            xs = [float(1 + (t_ % tooth)) for t_ in range(6 * p + 7)]
+            pr = (p, 0, 0, 2.0 if ind == "BB" else 0.0)
+            cases.append(Case("S_%s_p%d_tooth%d" % (ind, p, tooth), [new_op(0, ind, pr)] + [("n", 0, x) for x in xs],
+                              dump=(0,), meta={"ind": ind, "p": p, "fam": "B", "n": len(xs), "style": "sawtooth"}))
     # K7: WMA adversary (known finding) and the same stream through SMA (must stay within tolerance)
     adv = adversary(1400 if not ctx.thorough else 20000, r)
     cases.append(Case("K7_WMA_adversary", [new_op(0, "WMA", (2, 0, 0, 0.0))] + [("n", 0, x) for x in adv], dump=(),
